@@ -279,6 +279,13 @@ class MibCompiler(object):
                             '%s (%s) read from %s, immediate dependencies: %s' % (
                                 mibInfo.name, mibname, fileInfo.path, ', '.join(mibInfo.imported) or '<none>'))
 
+                    if mibname not in mibnames and mibname not in parsedMibs:
+                        # a name taken from an IMPORTS clause is a module
+                        # name; this file holds modules called differently
+                        debug.logger & debug.flagCompiler and debug.logger(
+                            'no module %s in the file found at %s' % (mibname, source))
+                        continue
+
                     break
 
                 except error.PySmiReaderFileNotFoundError:
